@@ -1,5 +1,6 @@
 """C05 — auto traits and coinductive traits follow coinductive semantics."""
 import collections
+import itertools
 
 from vlib import core, logic, sx
 from vlib import proggen as pg
@@ -18,8 +19,9 @@ META = {
                   "directions, Tarski form: cycles count as satisfied), the model is tied to the code clause by clause on every run, "
                   "and the verified evaluator decides every closed goal exactly, so each solver answer is checked against the truth.",
     "level_note": "Second sentence (a result that leaned on a cyclic assumption that turned out false is never reported or reused): at "
-                  "this level it is TESTED, not proved — goals inside cycles whose assumption fails, and several goals of one cycle "
-                  "posed to one solver in different orders, are compared with the oracle; the engine-level theorems live with "
+                  "this level it is TESTED, not proved — a deliberate family (a cycle that leans on a false leaf + a bystander behind a non-head "
+                  "member, every field / where-clause order) with histories in ALL goal orders on one solver of each kind, single queries "
+                  "`G1, not { G2 }` / `G1, G2` (verified evaluator evalRg), and random histories are compared with the oracle; the engine-level theorems live with "
                   "C10/C02 (Engine/RecEngine.v).  Closures, coroutines, opaque types, fn-def types and lifetimes are not modelled.",
     "design_ref": "DESIGN.md §4 C05",
     "assumptions": [
@@ -53,7 +55,137 @@ def histories(ctx, progs, per_prog):
                 t2 = rng.choice(ts)
                 h.insert(rng.randint(0, len(h)), (t2.name, (("tuple", (("adt", rng.choice(cs).name, ()), ("adt", rng.choice(cs).name, ()))),)))
             out.append((i, h))
+        if rng.random() < 0.35 and len(cs) >= 3:
+            # all orders of three goals of one trait (the engines' caches see every order)
+            t = rng.choice(ts)
+            three = [(t.name, (("adt", a.name, ()),)) for a in rng.sample(cs, 3)]
+            out += [(i, list(o)) for o in itertools.permutations(three)]
     return out
+
+
+class Conj:
+    """a closed single query `L1, L2` of literals (atom or `not { atom }`)"""
+
+    def __init__(self, pidx, prog, lits):
+        self.pidx, self.prog, self.lits = pidx, prog, lits
+        self.text = rg.conj_text(lits)
+        self.expr = logic.ob("evalRg %d D%d %s" % (rl.FUEL, pidx, sx.to_coq(rg.conj_model(lits, prog))))
+        self.code = None
+        self.answers = {}
+
+    @property
+    def oracle(self):
+        return {0: False, 1: True}.get(self.code)
+
+
+def conj_goals(ctx, progs, shape_idx):
+    """every ordered pair of the cycle goals of the deliberate programs as `G1, not { G2 }`, `not { G1 }, G2`
+    and `G1, G2`; a few random pairs of closed ADT goals for the random programs"""
+    rng = ctx.rng
+    out = []
+    for pidx, goals in shape_idx:
+        for a, b in itertools.permutations(goals[:3], 2):
+            out.append(Conj(pidx, progs[pidx], [(False, a), (True, b)]))
+            out.append(Conj(pidx, progs[pidx], [(True, a), (False, b)]))
+            out.append(Conj(pidx, progs[pidx], [(False, a), (False, b)]))
+            out.append(Conj(pidx, progs[pidx], [(True, a), (True, b)]))
+    for i, p in enumerate(progs):
+        if any(i == k for k, _ in shape_idx):
+            continue
+        ts = [t for t in p.traits if (t.auto or t.coind) and t.nextra == 0]
+        cs = [a for a in p.adts if a.nparams == 0]
+        if not ts or len(cs) < 2:
+            continue
+        for _ in range(2):
+            t = rng.choice(ts)
+            a, b = rng.sample(cs, 2)
+            lits = [(rng.random() < 0.4, (t.name, (("adt", a.name, ()),))), (rng.random() < 0.4, (t.name, (("adt", b.name, ()),)))]
+            out.append(Conj(i, p, lits))
+    return out
+
+
+def run_conj(ctx, progs, defs, conjs, verdicts, cpu=5):
+    """single queries on fresh solvers vs evalRg; SLG answers that are explained by the known classes F7q / F7
+    (the in-class atoms, which hold, answered `NoSolution`) are known findings, everything else a violation"""
+    cnt = collections.Counter()
+    by_prog = collections.OrderedDict()
+    for c in conjs:
+        by_prog.setdefault(c.pidx, []).append(c)
+    hc, meta = [], []
+    for cs in by_prog.values():
+        for sname, sv in rl.SOLVERS:
+            hc.append(pg.case(cs[0].prog.text, [c.text for c in cs], sv, "Fresh", [("Cpu", cpu)]))
+            meta.append((cs, sname))
+    res = logic.solve_cases(hc, timeout=900)
+    suspects = []
+    for (cs, sname), r in zip(meta, res):
+        if not r["ok"]:
+            raise core.CheckFailure("conjunction program does not lower: %s" % r["error"])
+        for k, c in enumerate(cs):
+            g = r["goals"][k]
+            if g[0] == "error":
+                raise core.CheckFailure("conjunction goal does not lower: %s: %s" % (c.text, g[1]))
+            c.answers[sname] = g[1]
+            v = rl.verdict_of(g[1])
+            if c.oracle is None:
+                cnt["oracle_inconclusive"] += 1
+            elif v is True or v is False:
+                ctx.count("conjunction-" + sname, (sname, c.prog.text, c.text), nontrivial=True)
+                cnt["conj_goals"] += 1
+                cnt["conj_true" if c.oracle else "conj_false"] += 1
+                if v != c.oracle:
+                    suspects.append((c, sname, v))
+            elif str(v).startswith("Ambig"):
+                # an ambiguous answer to a closed query is wrong too
+                cnt["conj_goals"] += 1
+                suspects.append((c, sname, v))
+            else:
+                cnt["solver_%s" % v] += 1
+    if suspects:
+        # which atoms of the query are in a known SLG class (decided in Coq on the input)
+        exprs, where = [], []
+        for c, sname, v in suspects:
+            if sname != "slg":
+                continue
+            atoms = [rg.atom_model(a, c.prog) for _, a in c.lits]
+            for j, (_, a) in enumerate(c.lits):
+                d = "D%d" % c.pidx
+                exprs.append(([d], logic.bb("f7q_class %d (bodsR %s) (isco (coD %s)) %s || f7_class %d (bodsR %s) (isco (coD %s)) %s %s"
+                                            % (rl.FUEL, d, d, sx.to_coq(atoms[j]), rl.FUEL, d, d, sx.to_coq(atoms), sx.to_coq(sx.Nat(j))))))
+                where.append((id(c), j))
+        inclass = {}
+        if exprs:
+            codes, fl = logic.coq_codes(ctx.work, "cjc", defs, exprs, shard=max(10, len(exprs) // core.NCPU + 1), imports=rl.IMPORTS)
+            if fl:
+                raise core.CheckFailure("coq evaluation of the class predicates failed: %s" % (fl[0],))
+            inclass = {w: k == 1 for w, k in zip(where, codes)}
+        for c, sname, v in suspects:
+            known = None
+            if sname == "slg":
+                # the answer SLG gives if exactly the in-class atoms that hold are (wrongly) failed
+                alt, hit = True, False
+                for j, (neg, a) in enumerate(c.lits):
+                    o = verdicts.get((c.pidx, a))
+                    if o is True and inclass.get((id(c), j)):
+                        o, hit = False, True
+                    alt = alt and (o is not None) and ((not o) if neg else o)
+                if v is True or v is False:
+                    if hit and alt == v:
+                        known = ctx.match_known(None, rl.F7Q_CLASS) or ctx.match_known(None, F7_CLASS)
+                elif any(neg and inclass.get((id(c), j)) for j, (neg, _) in enumerate(c.lits)):
+                    # `not { G }` on a goal G whose table keeps an unrefined answer with delayed subgoals: Ambiguous
+                    known = ctx.match_known(None, F7_CLASS)
+            if known:
+                cnt["known_conj"] += 1
+                ctx.known_finding(known, c.text)
+                continue
+            cnt["conj_violations"] += 1
+            if cnt["conj_violations"] <= 5:
+                ctx.violation({"kind": "wrong-answer-single-query", "solver": sname, "program": c.prog.text, "goal": c.text,
+                               "answer": str(v), "oracle": c.oracle, "answers": {k: sx.to_sexp(x)[:200] for k, x in c.answers.items()},
+                               "model_decls": sx.to_coq(c.prog.model), "model_goal": sx.to_coq(rg.conj_model(c.lits, c.prog)),
+                               "relation": "answer must be Unique iff evalRg = Some true, NoSolution iff Some false (evalRg_correct)"})
+    return cnt
 
 
 def run_histories(ctx, progs, defs, hs, verdicts, cpu=5):
@@ -83,12 +215,14 @@ def run_histories(ctx, progs, defs, hs, verdicts, cpu=5):
                     suspects.append((pidx, h, j, sname, v, o))
             else:
                 cnt["solver_%s" % v] += 1
-    # classify the wrong answers: F7 = SLG, oracle true, answer NoSolution, class predicate on the input (Coq)
+    # classify the wrong answers: F7 / F7q = SLG, oracle true, answer NoSolution, class predicates on the input (Coq):
+    # reached by an earlier root (f7_class) or damaged within its own search (f7q_class)
     if suspects:
         exprs = []
         for pidx, h, j, sname, v, o in suspects:
             hist = [rg.atom_model(a, progs[pidx]) for a in h]
-            exprs.append((["D%d" % pidx], logic.bb("f7_class %d (bodsR D%d) (isco (coD D%d)) %s %s" % (rl.FUEL, pidx, pidx, sx.to_coq(hist), sx.to_coq(sx.Nat(j))))))
+            exprs.append((["D%d" % pidx], logic.bb("f7_class %d (bodsR D%d) (isco (coD D%d)) %s %s || f7q_class %d (bodsR D%d) (isco (coD D%d)) %s"
+                                                      % (rl.FUEL, pidx, pidx, sx.to_coq(hist), sx.to_coq(sx.Nat(j)), rl.FUEL, pidx, pidx, sx.to_coq(hist[j])))))
         codes, fl = logic.coq_codes(ctx.work, "f7", defs, exprs, shard=20, imports=rl.IMPORTS)
         if fl:
             raise core.CheckFailure("coq evaluation of f7_class failed: %s" % (fl[0],))
@@ -134,7 +268,7 @@ def corpus_cases():
 
 def run(ctx):
     ok, why = ctx.proof_stage("Props.C05", ["auto_clauses_spec", "auto_fixed_point", "auto_clause_set", "impl_provided_for_spec",
-                                            "coinductive_spec", "evalR_correct"])
+                                            "coinductive_spec", "evalR_correct", "evalRg_correct"])
     if not ok:
         # a theorem no longer checks: look for a concrete failing input first (the oracle functions may
         # still build); if none is found, report the broken theorem itself
@@ -166,39 +300,58 @@ def _body(ctx):
     hs.append((cp, [("Send", (("adt", "A", ()),)), ("Send", (("adt", "B", ()),)), ("Send", (("adt", "X", ()),)), ("Send", (("adt", "Y", ()),))]))
     hs.append((cp + 1, [("C1", (("adt", "B", ()),)), ("C2", (("adt", "B", ()),)), ("C3", (("adt", "B", ()),)), ("C1", (("adt", "A", ()),)), ("C2", (("adt", "A", ()),))]))
     hs.append((cp + 1, [("C3", (("adt", "B", ()),)), ("C2", (("adt", "A", ()),)), ("C1", (("adt", "A", ()),)), ("C1", (("adt", "B", ()),))]))
-    # every history goal is also a fresh-solver case (gives its oracle verdict)
+    # the deliberate family "cycle that leans on something false + bystander behind a non-head member": every
+    # field order of the minimal witness, random members of the wider family; histories in ALL orders
+    shape_idx = []
+    for p, gs in rg.cycle_fail_programs(ctx.rng, ctx.n(6, 40)):
+        p.text, p.model = rg.to_text(p), rg.to_model(p)
+        pidx = len(progs)
+        progs.append(p)
+        shape_idx.append((pidx, gs))
+        for a in gs:
+            c = rl.Case(pidx, p, a, "goal")
+            c.text = rg.goal_text(a)
+            cases.append(c)
+        hs += [(pidx, list(o)) for o in itertools.permutations(gs)]
+    conjs = conj_goals(ctx, progs, shape_idx)
+    # every history / conjunction atom is also a fresh-solver case (gives its oracle verdict)
     have = {(c.pidx, c.atom) for c in cases}
-    for pidx, h in hs:
-        for a in h:
+    for pidx, atoms in hs + [(c.pidx, [a for _, a in c.lits]) for c in conjs]:
+        for a in atoms:
             if (pidx, a) not in have:
                 have.add((pidx, a))
                 c = rl.Case(pidx, progs[pidx], a, "history-goal")
                 c.text = rg.goal_text(a)
                 cases.append(c)
-    cases, defs = rl.main_pipeline(ctx, progs, cases, cpu=ctx.n(3, 8))
+    cases, defs = rl.main_pipeline(ctx, progs, cases, cpu=ctx.n(3, 8), extra_exprs=conjs)
     cnt, fam, ctors = rl.judge(ctx, "C05", progs, cases, defs)
     verdicts = {(c.pidx, c.atom): c.oracle for c in cases}
     import time
     th = time.time()
     hcnt = run_histories(ctx, progs, defs, hs, verdicts, cpu=ctx.n(3, 8))
     ctx.cov.setdefault("phase_s", {})["histories"] = round(time.time() - th, 1)
+    th = time.time()
+    ccnt = run_conj(ctx, progs, defs, conjs, verdicts, cpu=ctx.n(3, 8))
+    ctx.cov["phase_s"]["single_query_conjunctions"] = round(time.time() - th, 1)
 
     n_ver = cnt["oracle_true"] + cnt["oracle_false"]
     ctx.cov["rule"] = ("evaluations = (solver, program, goal) triples whose Unique/NoSolution answer was compared with the verified oracle "
-                       "evalR, plus every goal of every history; non-trivial = self type is an ADT or has components (fresh solver), "
+                       "evalR, plus every goal of every history and every single-query conjunction (evalRg); non-trivial = self type is an ADT or has components (fresh solver), "
                        "not the first goal (history); distinct by (solver, program text, goal text / history prefix)")
     ctx.cov["input_distribution"] = {
         "programs": len(progs), "goals": len(cases), "goals_by_trait_kind": dict(fam), "self_type_constructors": dict(ctors),
         "histories": len(hs), "history_goals": hcnt["history_goals"],
+        "cycle_fail_family_programs": len(shape_idx), "single_query_conjunctions": len(conjs),
+        "conjunction_verdicts": {"true": ccnt["conj_true"], "false": ccnt["conj_false"]},
     }
     ctx.cov["verdict_share"] = {"true": round(cnt["oracle_true"] / max(1, n_ver), 3), "false": round(cnt["oracle_false"] / max(1, n_ver), 3)}
     ctx.cov["clause_correspondence"] = {"equal": cnt["clauses_equal"], "mismatch": cnt["clause_mismatch"], "not_compared": cnt["clauses_not_compared"]}
     ctx.cov["known_class_share"] = {"F7 (share of history goals)": round(hcnt["known_F7"] / max(1, hcnt["history_goals"]), 4),
                                     "F7q (share of fresh SLG answers)": round(cnt["known_F7q"] / max(1, n_ver), 4)}
-    ctx.cov["known_class_hits"] = {"F7": hcnt["known_F7"], "F7q": cnt["known_F7q"]}
-    ctx.cov["inconclusive"] = (cnt["oracle_inconclusive"] + hcnt["oracle_inconclusive"] + cnt["ambiguous_near_max_size"]
-                               + sum(v for k, v in list(cnt.items()) + list(hcnt.items()) if k.startswith("solver_")))
-    ctx.cov["counters"] = {k: v for k, v in list(cnt.items()) + [("hist:" + k, v) for k, v in hcnt.items()]}
+    ctx.cov["known_class_hits"] = {"F7": hcnt["known_F7"], "F7q": cnt["known_F7q"], "F7/F7q in single-query conjunctions": ccnt["known_conj"]}
+    ctx.cov["inconclusive"] = (cnt["oracle_inconclusive"] + hcnt["oracle_inconclusive"] + ccnt["oracle_inconclusive"] + cnt["ambiguous_near_max_size"]
+                               + sum(v for k, v in list(cnt.items()) + list(hcnt.items()) + list(ccnt.items()) if k.startswith("solver_")))
+    ctx.cov["counters"] = {k: v for k, v in list(cnt.items()) + [("hist:" + k, v) for k, v in hcnt.items()] + [("conj:" + k, v) for k, v in ccnt.items()]}
 
 
 def replay(ctx, obj):
